@@ -204,8 +204,8 @@ pub fn run(tier: Tier) -> i32 {
     }
     ctx.count("element_definitions", all_types.len() as u64);
     ctx.count("reachable_types", reachable.len() as u64);
-    let all_names: Vec<ElementName> = ElementName::verif_string_table().iter().map(|s| ElementName::from_str(s).unwrap()).collect();
-    let all_attrs: Vec<AttributeName> = AttributeName::verif_string_table().iter().map(|s| AttributeName::from_str(s).unwrap()).collect();
+    let all_names: Vec<ElementName> = ElementName::verif_string_table().iter().filter_map(|s| ElementName::from_str(s).ok()).collect(); // a text that does not convert back is reported by the name sweep
+    let all_attrs: Vec<AttributeName> = AttributeName::verif_string_table().iter().filter_map(|s| AttributeName::from_str(s).ok()).collect();
     let lookups = AtomicU64::new(0);
     let versions: Vec<AutosarVersion> = VERSIONS.to_vec();
     // group by datatype: lookups depend on the datatype only, but run them for every definition anyway (cheap)
